@@ -420,7 +420,8 @@ type layer struct {
 	prefetchSize   int64
 	prefetchSizeMu sync.Mutex
 
-	r reader.Reader
+	r   reader.Reader
+	rMu sync.Mutex
 
 	closed   bool
 	closedMu sync.Mutex
@@ -433,8 +434,8 @@ type layer struct {
 
 func (l *layer) Info() Info {
 	var readTime time.Time
-	if l.r != nil {
-		readTime = l.r.LastOnDemandReadTime()
+	if r := l.reader(); r != nil {
+		readTime = r.LastOnDemandReadTime()
 	}
 	return Info{
 		Digest:       l.desc.Digest,
@@ -471,6 +472,8 @@ func (l *layer) Verify(tocDigest digest.Digest) (err error) {
 	if l.isClosed() {
 		return fmt.Errorf("layer is already closed")
 	}
+	l.rMu.Lock()
+	defer l.rMu.Unlock()
 	if l.r != nil {
 		return nil
 	}
@@ -479,6 +482,8 @@ func (l *layer) Verify(tocDigest digest.Digest) (err error) {
 }
 
 func (l *layer) SkipVerify() {
+	l.rMu.Lock()
+	defer l.rMu.Unlock()
 	if l.r != nil {
 		return
 	}
@@ -622,10 +627,11 @@ func (l *layer) RootNode(baseInode uint32) (fusefs.InodeEmbedder, error) {
 	if l.isClosed() {
 		return nil, fmt.Errorf("layer is already closed")
 	}
-	if l.r == nil {
+	r := l.reader()
+	if r == nil {
 		return nil, fmt.Errorf("layer hasn't been verified yet")
 	}
-	return newNode(l.desc.Digest, l.r, l.blob, baseInode, l.resolver.overlayOpaqueType, l.passThrough, l.logFileAccess)
+	return newNode(l.desc.Digest, r, l.blob, baseInode, l.resolver.overlayOpaqueType, l.passThrough, l.logFileAccess)
 }
 
 func (l *layer) ReadAt(p []byte, offset int64, opts ...remote.Option) (int, error) {
@@ -641,10 +647,17 @@ func (l *layer) close() error {
 	l.closed = true
 	defer l.blob.done(true) // Close reader first, then close the blob
 	l.verifiableReader.Close()
-	if l.r != nil {
-		return l.r.Close()
+	if r := l.reader(); r != nil {
+		return r.Close()
 	}
 	return nil
+}
+
+// reader returns the verified reader of this layer (nil if not verified yet).
+func (l *layer) reader() reader.Reader {
+	l.rMu.Lock()
+	defer l.rMu.Unlock()
+	return l.r
 }
 
 func (l *layer) isClosed() bool {
